@@ -947,9 +947,11 @@ pub fn apply_model(
         },
         Op::EvalMut { program, form, faults, .. } | Op::EvalImm { program, form, faults, .. } => {
             let immutable = matches!(op, Op::EvalImm { .. });
-            let (tree, _) = match build_tree(program, *form) {
-                Ok(x) => x,
-                Err(e) => return Ok(format!("PARSE-REJECTED: {}", e)),
+            // the meaning of a program is its own structure: if the parser rejects the source
+            // text of a renderable program (or groups it differently), the real side shows it
+            let tree = match build_tree(program, *form) {
+                Ok((t, _)) => t,
+                Err(_) => program.assemble(true),
             };
             let mut env = RefEnv {
                 vars: m.vars.clone(),
